@@ -87,6 +87,8 @@ class Check(object):
         self.solver_s = 0.0
         self.queries = 0
         repo.load()
+        if repo.reset_state not in ps.PATH_START_HOOKS:
+            ps.PATH_START_HOOKS.append(repo.reset_state)
         print('[%s] tier=%s repo=%s' % (prop, self.tier, repo.REPO), flush=True)
         # the pandas model is diffed against real pandas on a fixed script before it is trusted
         try:
